@@ -1116,6 +1116,20 @@ def rule_sig_upd(text):
 def rule_flushmisc(text):
     """force_flush one-offs"""
     apps = []
+    # (0..N).filter(PRED).collect()  ->  some subset of 0..N (the predicate is abstracted away: sound over-approximation)
+    while True:
+        mk = mask(text)
+        mm = re.search(r"\(\s*0\s*\.\.\s*([\w.]+\(\))\s*\)\s*\.\s*filter\s*\(", mk)
+        if not mm:
+            break
+        cl = match_close(mk, mm.end() - 1)
+        t = re.match(r"\s*\.\s*collect\s*(?:::\s*<[^>]*>\s*)?\(\s*\)", mk[cl + 1:])
+        if not t:
+            break
+        new_ = "range_vec_subset(%s)" % mm.group(1)
+        apps.append(_app("R-rangevec", text, mm.start(), cl + 1 + t.end(), new_,
+                         "over-approximation: collecting a FILTERED range yields some ascending subset of the indices; the predicate is not modelled (obligations that need every index then fail)"))
+        text = text[:mm.start()] + new_ + text[cl + 1 + t.end():]
     table = [
         (r"\(\s*0\s*\.\.\s*([\w.]+\(\))\s*\)\s*\.\s*collect\s*\(\s*\)", r"range_vec(\1)", "R-rangevec", "shim: collecting 0..n into a Vec"),
         (r"for\s+(\w+)\s+in\s+(\w+)\s*\.\s*drain\s*\(\s*\.\.\s*\)\s*\{", r"let mut \2_q_ = VecQueue::new(vec_take_all(&mut \2)); while let Some(\1) = \2_q_.pop_front() {", "R-drainall", "shim: a full drain consumed by the loop = all elements in order, source left empty"),
@@ -1946,3 +1960,20 @@ def rule_ctormisc(text):
             apps.append(_app(rname, text, mm.start(), mm.end(), new, why))
             text = text[:mm.start()] + new + text[mm.end():]
     return text, apps
+
+
+def rule_divceil_u64(text):
+    """`a.div_ceil(b)` on u64 operands (units whose arithmetic is all u64) -> verified helper div_ceil_u64"""
+    apps = []
+    while True:
+        m = mask(text)
+        hit = None
+        for dot, op, cl in _method_calls(text, m, "div_ceil"):
+            rs = _receiver_start(m, dot)
+            hit = (rs, cl + 1, "div_ceil_u64(%s, %s)" % (text[rs:dot].strip(), text[op + 1:cl].strip()))
+            break
+        if not hit:
+            return text, apps
+        a, b, new = hit
+        apps.append(_app("R-div", text, a, b, new, "verified helper: ceil(a/b) on u64, requires b > 0"))
+        text = text[:a] + new + text[b:]
